@@ -9,6 +9,7 @@ package zzsymx
 
 import (
 	"math"
+	"sync/atomic"
 	"fmt"
 	"os"
 	"runtime"
@@ -325,6 +326,10 @@ func MustFinish(t ThreadID, label string) {
 		mu.Unlock()
 	}
 }
+// GhostAdd/GhostLoad: monitor counters of a harness (engine: instantaneous, no scheduling point).
+func GhostAdd(p *int64, d int64) int64 { return atomic.AddInt64(p, d) }
+func GhostLoad(p *int64) int64         { return atomic.LoadInt64(p) }
+
 func Yield()                                             { runtime.Gosched() }
 func MutexHeld(m *sync.Mutex) bool                       { if m.TryLock() { m.Unlock(); return false }; return true }
 func RWMutexState(m *sync.RWMutex) (writer bool, readers int) {
